@@ -1,9 +1,11 @@
 package props
 
 import (
+	"fmt"
 	"go/ast"
 	"go/token"
 	"go/types"
+	"os"
 	"strings"
 
 	"golang.org/x/tools/go/packages"
@@ -193,12 +195,17 @@ func ruleTxErr(c *core.Ctx, rule string, pkg *packages.Package, exempt map[strin
 					if checked[m] == nil {
 						checked[m] = map[string]bool{}
 					}
-					checked[m][l.Key] = true
+					checked[m][strings.TrimSuffix(strings.TrimSuffix(l.Key, " == nil"), " != nil")] = true
 				}
+			}
+			if os.Getenv("KAPDEBUG_TX") == b.name {
+				fmt.Fprintf(os.Stderr, "TXDEBUG %s calls=%v checked=%v rets=%v cond=%s\n", b.name, calls, checked, p.Rets, p.Cond())
 			}
 			for m, set := range calls {
 				returned := 0
-				if len(p.Rets) > 0 && strings.Contains(p.Rets[len(p.Rets)-1], "."+m+"(") {
+				// a returned error counts once, and only when it is not one that this path already tested (returning the
+				// error of an earlier, already checked call says nothing about the later ones)
+				if len(p.Rets) > 0 && strings.Contains(p.Rets[len(p.Rets)-1], "."+m+"(") && !checked[m][p.Rets[len(p.Rets)-1]] {
 					returned = 1
 				}
 				if len(set) > len(checked[m])+returned {
